@@ -126,7 +126,7 @@ Proof. exact c11_recovery_after_clean_crash_tick_sym. Qed.
 
 (* the premise holds after every history of the C01 alphabet in which the user did not plant or damage state files *)
 Theorem C11_crash_ok_after_every_history : forall t0 (ops : list (op sym)),
-  0 < t0 -> det_history sym sym_eqb SContent SList SRule (init_world Fine t0) ops ->
+  det_history sym sym_eqb SContent SList SRule (init_world Fine t0) ops ->
   Forall (fun o => match o with OSetTable _ | OSetHist _ _ => False | _ => True end) ops ->
   crash_ok_sym (fold_left (fun w o => fst (apply_op sym_eqb SContent SList SRule w o)) ops (init_world Fine t0)).
 Proof. exact history_crash_ok_sym. Qed.
@@ -198,3 +198,67 @@ Theorem C11_no_stale_table_entry_in_any_interleaving : forall (w1 : world sym) (
   forall p, In p (p_leaves pack) \/ In p (plan_targets pack) -> alookup bytes_eqb t' p = None.
 Proof. exact fine_no_stale_entries_sym. Qed.
 Print Assumptions C11_no_stale_table_entry_in_any_interleaving.
+
+(* ---- ANY clock (round 4; Proofs/CoarseCrash*.v) ----
+   The theorems above assume the property's "distinct writes carry distinct times". Defect F6 lived where that fails
+   (a coarse clock) AND ruler is killed: these theorems close exactly that corner. From the per-path invariant
+   `coarse_inv` (which holds after every history with confined commands under either clock, C18), at EVERY prefix of
+   the action list of a build or clean the disk satisfies `pre_inv` (cache content-addressed, no file newer than the
+   clock, every entry of the table ON DISK sound for the file now at its path); after the tick that separates the kill
+   from the next invocation `coarse_inv` holds again, so by C18 the saved table cannot change any later result; the
+   same after any history that contains kills, and at every state of every interleaving of the rule threads at their
+   cache operations. The last theorem is the necessity of F6's repair: without the early table write the statement is
+   false. *)
+From Ruler Require Import Inv Ideal BuildSpec InvFacts C01Hist C01Facts C11Facts C02Sym Acts Sched Fine FineFacts C18Facts CoarseInv CoarseBuild C18CoarseFacts CoarseCrash CoarseCrashFacts CoarseCrashFine EpochFacts.
+Local Open Scope nat_scope.
+
+Theorem C11_any_clock_every_crash_point_of_a_build : forall (w : world sym) goal pre suf,
+  coarse_inv_sym w -> build_confined sym w goal ->
+  build_acts_sym w RULES_PATH goal = pre ++ suf ->
+  pre_inv_sym (run_acts_sym pre w).
+Proof. exact coarse_build_crash_point_sym. Qed.
+Print Assumptions C11_any_clock_every_crash_point_of_a_build.
+
+Theorem C11_any_clock_every_crash_point_of_a_clean : forall (w : world sym) goal pre suf,
+  coarse_inv_sym w ->
+  clean_acts_sym w RULES_PATH goal = pre ++ suf ->
+  pre_inv_sym (run_acts_sym pre w).
+Proof. exact coarse_clean_crash_point_sym. Qed.
+Print Assumptions C11_any_clock_every_crash_point_of_a_clean.
+
+Theorem C11_any_clock_invariant_restored_after_the_kill : forall (w : world sym) goal pre suf,
+  coarse_inv_sym w -> build_confined sym w goal ->
+  build_acts_sym w RULES_PATH goal = pre ++ suf ->
+  coarse_inv_sym (tick (run_acts_sym pre w)).
+Proof. exact coarse_crash_then_tick_sym. Qed.
+Print Assumptions C11_any_clock_invariant_restored_after_the_kill.
+
+Theorem C11_any_clock_every_history_with_kills : forall mode (t0 : N) (kops : list (kop sym)),
+  (0 < t0)%N -> confined_khistory_sym (init_world mode t0) kops ->
+  coarse_inv_sym (fold_left apply_kop_sym kops (init_world mode t0)).
+Proof. exact coarse_inv_every_history_with_kills_sym. Qed.
+Print Assumptions C11_any_clock_every_history_with_kills.
+
+Theorem C11_any_clock_crash_point_after_a_history_with_kills : forall mode (t0 : N) (kops : list (kop sym)) goal k,
+  (0 < t0)%N -> confined_khistory_sym (init_world mode t0) kops ->
+  build_confined sym (fold_left apply_kop_sym kops (init_world mode t0)) goal ->
+  let w := fold_left apply_kop_sym kops (init_world mode t0) in
+  pre_inv_sym (run_acts_sym (firstn k (build_acts_sym w RULES_PATH goal)) w).
+Proof. exact coarse_crash_point_after_kills_sym. Qed.
+Print Assumptions C11_any_clock_crash_point_after_a_history_with_kills.
+
+Theorem C11_any_clock_killed_inside_any_interleaving : forall (w : world sym) rp goal w1 tbl pack hists blobs t' ch,
+  coarse_inv sym_eqb SContent w ->
+  init_dir sym w = Ok (w1, tbl) -> get_nodes sym w1 rp goal = Ok pack -> Forall node_confined (p_nodes pack) ->
+  take_blobs sym SContent tbl (worker_paths pack) = (blobs, t') ->
+  pre_inv sym_eqb SContent (fn_world (frun_sym pack blobs hists ch (fn_start_sym w1 t' pack))).
+Proof. exact coarse_fine_crash_point_sym. Qed.
+Print Assumptions C11_any_clock_killed_inside_any_interleaving.
+
+Theorem C11_any_clock_without_the_early_table_write_refuted :
+  ~ (forall (w : world sym) goal pre suf,
+       coarse_inv_sym w -> build_confined sym w goal ->
+       build_acts_legacy_sym w RULES_PATH goal = pre ++ suf ->
+       pre_inv_sym (run_acts_sym pre w)).
+Proof. exact coarse_build_crash_point_legacy_refuted. Qed.
+Print Assumptions C11_any_clock_without_the_early_table_write_refuted.
